@@ -42,6 +42,19 @@ CLAIMED = {
         "technique": "guard-dominance dataflow over typed HIR with callee summaries (refusing branches, value identity)",
         "design_ref": "DESIGN.md §3 R-GUARD/R-FORMS, §4 C06",
     },
+    "C17": {
+        "text": "Decides deadlock freedom and the structural conditions of the standard linearizability argument for "
+                "the three lock-protected caches (discovered from the type facts): no lock is re-acquired while one of "
+                "its guards is live, in the same body or through any callee (exact MIR guard live ranges); every "
+                "whole-value publish through a write guard in a &self function is dominated by a re-check under that "
+                "guard; no shrinking call through a guard; the shareable types have no interior-mutable field other "
+                "than these locks; all shareable types are Send+Sync (compile-pass witnesses; compile_fail witnesses "
+                "with twins in the thorough tier).",
+        "note": _TB + "rustc's Send/Sync and borrow checking for the witnesses. Not decided: linearizability as a "
+                "property of histories; that a published array is longer than the one it replaces.",
+        "technique": "lock live-range dataflow on MIR + dominance of publishes on HIR + type-level Send/Sync witnesses",
+        "design_ref": "DESIGN.md §3 R-LOCK, §4 C17",
+    },
 }
 
 _NYB = "rules designed (DESIGN.md §4) but not built yet in this tree; not claimed until the check exists"
@@ -50,7 +63,7 @@ NOT_APPLICABLE = {
     "C07": "every clause compares a reported integer with exact big-integer arithmetic on runtime phase/noise "
            "values; no necessary condition is visible in the shape of the code (DESIGN.md §5)",
     "C08": _NYB, "C09": _NYB, "C10": _NYB, "C11": _NYB, "C12": _NYB, "C13": _NYB, "C14": _NYB,
-    "C16": _NYB, "C17": _NYB, "C18": _NYB,
+    "C16": _NYB, "C18": _NYB,
     "C19": "every clause is about where coefficients land as a function of runtime indices and counts; static "
            "shape rules do not bound them (DESIGN.md §5)",
     "C20": _NYB,
